@@ -539,7 +539,7 @@ class C05Check(PoolCheckBase):
         "different labellings and at least one optional argument or lazy default exercised. Distinct by (entry, model, op-kind set, probe set)."
     )
     fault_kinds = ["requery_without_labelling", "prefit_model", "optional_args", "data_swap"]
-    probes_expected = ["lazy_default_unset", "second_query_other_data", "clone_checked", "pickle_checked", "model_fingerprinted", "arrays_compared"]
+    probes_expected = ["lazy_default_unset", "second_query_other_data", "clone_checked", "pickle_checked", "model_fingerprinted", "arrays_compared", "clone_behaviour_compared"]
     assumptions = [
         "the position of a model's own tie-break generator (random_state_) is not part of the model fingerprint: predict is specified to draw from it",
         "exceptions raised by a query are outside this property (they abort the run, counted separately)",
@@ -741,6 +741,36 @@ class C05Check(PoolCheckBase):
             else:
                 ctx.fault("requery_without_labelling")
             ctx.sim_time += 1
+        # ---- "... and a clone behaves like the original": the used object, its clone and its pickle round trip
+        # answer one more query (same arguments, numpy's global generator pinned) alike
+        if not ctx.violations and ok_ops and np.isnan(y).any() and clone0 and pick0:
+            from sklearn.base import clone
+
+            def answer(strategy):
+                w.qs = strategy
+                np.random.seed(12345)
+                try:
+                    # (a strategy with documented state between queries -- ProbCover's cached radius -- is asked to
+                    # recompute it: `update=True`)
+                    extra = {"update": True} if "update" in w.params else {}
+                    r = w.call(y.copy(), 1 if e["flags"].get("batch1") else min(2, int(np.isnan(y).sum())), return_utilities=True, prefit=False, **extra)
+                    return ("ok", np.asarray(r[0]).tolist(), np.asarray(r[1], dtype=float))
+                except Exception as ex:
+                    return ("exc", type(ex).__name__)
+
+            try:
+                variants = [("clone", clone(qs)), ("pickle round trip", pickle.loads(pickle.dumps(qs)))]
+            except Exception:
+                variants = []
+            if variants:
+                ref = answer(qs)
+                for nm, v in variants:
+                    got = answer(v)
+                    ctx.probe("clone_behaviour_compared")
+                    if not same(ref, got):
+                        ctx.violate("clone-behaves-differently", subj, f"after {ok_ops} queries the {nm} of the strategy answers {_s(got)} where the original answers {_s(ref)}", dict(cond, variant=nm.split()[0]))
+                        break
+                w.qs = qs
         sig = "|".join([sc["entry"], str(sc["model"]), ",".join(sorted(ctx.faults)), ",".join(sorted(ctx.probes))])
         aborted = ok_ops == 0
         return ctx.result(sig=sig, extra={"aborted": aborted and not ctx.violations, "notes": ctx.notes[:3]})
